@@ -58,6 +58,7 @@ type FuncContract struct {
 	Monitor  []*Clause
 	Uses     []string
 	Apply    []string
+	Critical []*Clause
 	LoopApply map[int][]*Clause
 	Ghost    []*Clause
 	Effects  []*Clause // ghost effects: "effect run(self.metadata)" etc.
@@ -113,7 +114,7 @@ func NewContracts() *Contracts {
 
 var clauseKeywords = map[string]bool{"requires": true, "ensures": true, "modifies": true, "loop": true, "mode": true, "arith": true,
 	"nopanic": true, "monitor": true, "trusted": true, "pure": true, "property": true, "invariant": true, "guarded_by": true,
-	"uses": true, "apply": true, "ghost": true, "effect": true, "assume": true, "inline": true, "opt": true, "params": true, "let": true, "probe": true}
+	"uses": true, "apply": true, "critical": true, "ghost": true, "effect": true, "assume": true, "inline": true, "opt": true, "params": true, "let": true, "probe": true}
 
 func (cs *Contracts) LoadFile(path string) error {
 	data, err := os.ReadFile(path)
@@ -296,6 +297,13 @@ func (cs *Contracts) LoadFile(path string) error {
 				curF.Inline = true
 			case "uses":
 				curF.Uses = append(curF.Uses, strings.Fields(rest)...)
+			case "critical":
+				// critical <expr>: holds at every Unlock of this function, old() = state at the matching Lock
+				cl, err := mkClause("critical", rest, where)
+				if err != nil {
+					return err
+				}
+				curF.Critical = append(curF.Critical, cl)
 			case "apply":
 				// apply <lemma>...: the named lemmas (proved as obligations of their own) are assumed here
 				curF.Apply = append(curF.Apply, strings.Fields(rest)...)
